@@ -300,11 +300,43 @@ theorem chain_links_ne {p : Nat} {fs : List AField} (O : ObjAt m ι p fs) :
   have := hpre.link (hi v hv)
   simpa [fstOff, fieldOffset, fieldsPerBlock] using this
 
-/-- THE REACHABILITY LEMMA: every block of every abstract object is live at block level -/
-theorem chains_live (I : InvW m base limit heap free (rs.map ι) [] lin lazy live F)
+/-- THE REACHABILITY LEMMA (general form): if the image of every abstract root is live, so is every block
+of every abstract object.  `roots` (the roots of the block-level invariant) is arbitrary. -/
+theorem chains_live_supp {roots : List Nat}
+    (I : InvW m base limit heap free roots [] lin lazy live F)
     (A : Scc.Backend.Sim.HeapOK h rs next) (hord : ∀ e ∈ h, ∀ c ∈ e.2.children, c < e.1)
-    (hshape : ∀ e ∈ h, ObjAt m ι (ι e.1) e.2.fields) :
+    (hshape : ∀ e ∈ h, ObjAt m ι (ι e.1) e.2.fields) (hsupp : ∀ r ∈ rs, ι r ∈ live) :
     ∀ (k : Nat) (e : Nat × Obj), e ∈ h → next - e.1 ≤ k → ∀ b ∈ blocksOf m (ι e.1) e.2.fields, b ∈ live := by
+  have slot_live' : ∀ {blk q : Nat}, blk ∈ live → q ∈ ptrSlots m blk → q = 0 ∨ q ∈ live := by
+    intro blk q hb hq
+    apply I.fields_live
+    exact ptrSlots_sub_ptrFields (List.mem_append.2 (Or.inl hb)) q hq
+  have linked : ∀ (l : List Nat) (a : Nat), Linked m a l → (l ≠ [] → a ∈ live) →
+      (∀ b ∈ l.dropLast, m (b + 48) ≠ 0) → ∀ b ∈ l, b ∈ live := by
+    intro l
+    induction l with
+    | nil => intro a _ _ _ b hb; simp at hb
+    | cons x rest ih =>
+      intro a hl ha hnz b hb
+      obtain ⟨rfl, hl2⟩ := hl
+      have hx : x ∈ live := ha (by simp)
+      simp only [List.mem_cons] at hb
+      rcases hb with rfl | hb
+      · exact hx
+      · cases rest with
+        | nil => simp at hb
+        | cons y rest' =>
+          have hlink : m (x + 48) ∈ ptrSlots m x := by simp [ptrSlots]
+          have hnz' : m (x + 48) ≠ 0 := hnz x (by simp [List.dropLast])
+          have hylive : m (x + 48) ∈ live := by
+            rcases slot_live' hx hlink with h0 | hl
+            · exact absurd h0 hnz'
+            · exact hl
+          refine ih (m (x + 48)) hl2 (fun _ => hylive) ?_ b hb
+          intro c hc
+          exact hnz c (by
+            simp only [List.dropLast_cons_cons, List.mem_cons]
+            exact Or.inr hc)
   intro k
   induction k with
   | zero =>
@@ -315,15 +347,11 @@ theorem chains_live (I : InvW m base limit heap free (rs.map ι) [] lin lazy liv
     intro e he hk b hb
     have O := hshape e he
     have hkinds : e.2.fields.map kindB ≠ [] := by simpa using O.ne
-    -- the head is live
     have hhead : ι e.1 ∈ live := by
       have hc := A.counts e he
       rw [Scc.Backend.Sim2.refCount_eq] at hc
       by_cases hr : 0 < rs.count e.1
-      · have : ι e.1 ∈ rs.map ι := List.mem_map.2 ⟨e.1, List.count_pos_iff.mp hr, rfl⟩
-        rcases I.roots_live _ this with h0 | hl
-        · exact absurd h0 O.pos
-        · exact hl
+      · exact hsupp e.1 (List.count_pos_iff.mp hr)
       · obtain ⟨e', he', hch⟩ := childSum_pos (h := h) (x := e.1) (by omega)
         have hlt := hord e' he' e.1 hch
         have hn' := (A.ids e' he').2.1
@@ -333,12 +361,32 @@ theorem chains_live (I : InvW m base limit heap free (rs.map ι) [] lin lazy liv
         rw [← O'.vals] at hmem
         have hslot := ptrsOf_peek_sub m _ _ .last (ι e'.1) (Nat.le_refl _) _ hmem
         obtain ⟨b', hb', hx⟩ := mem_ptrFields.1 hslot
-        rcases I.slot_live (hblocks b' hb') hx with h0 | hl
+        rcases slot_live' (hblocks b' hb') hx with h0 | hl
         · exact absurd h0 O.pos
         · exact hl
-    -- and so is the rest of the chain
     have hlinked := (peek_chain m _ (e.2.fields.map kindB) .last (ι e.1) (Nat.le_refl _)).1
-    exact linked_live I _ _ hlinked (fun _ => hhead) (chain_links_ne O) b hb
+    exact linked _ _ hlinked (fun _ => hhead) (chain_links_ne O) b hb
+
+/-- THE REACHABILITY LEMMA: every block of every abstract object is live at block level -/
+theorem chains_live (I : InvW m base limit heap free (rs.map ι) [] lin lazy live F)
+    (A : Scc.Backend.Sim.HeapOK h rs next) (hord : ∀ e ∈ h, ∀ c ∈ e.2.children, c < e.1)
+    (hshape : ∀ e ∈ h, ObjAt m ι (ι e.1) e.2.fields) :
+    ∀ (k : Nat) (e : Nat × Obj), e ∈ h → next - e.1 ≤ k → ∀ b ∈ blocksOf m (ι e.1) e.2.fields, b ∈ live := by
+  apply chains_live_supp I A hord hshape
+  intro r hr
+  have hmem : ι r ∈ rs.map ι := List.mem_map.2 ⟨r, hr, rfl⟩
+  rcases I.roots_live _ hmem with h0 | hl
+  · -- a root is a live abstract object, whose head is not null
+    have hlive : (h.get r).isSome := by
+      apply A.live
+      have : 0 < rs.count r := List.count_pos_iff.mpr hr
+      rw [Scc.Backend.Sim2.refCount_eq]; omega
+    cases hg : h.get r with
+    | none => rw [hg] at hlive; simp at hlive
+    | some o =>
+      have := (hshape (r, o) (Scc.Backend.Sim.heap_get_mem hg)).pos
+      exact absurd h0 this
+  · exact hl
 
 end Reach
 
